@@ -22,11 +22,11 @@
                   INSERT message_mailbox), RecordDeliveryPerUser
       CAppend     server/message/message.go HandleAppendWithReader (same, no delivery row)
       CBase o     the operations of Model/Ops.v that do not store a message:
-                  UID COPY / COPY / move = one transaction; UID STORE = one UPDATE
+                  UID COPY / COPY / move = one transaction (incl. the uid_next write-back, raven 02d2f67); UID STORE = one UPDATE
                   (or one move transaction) per message; EXPUNGE / CLOSE = one
                   DELETE per message; CREATE = one INSERT per missing parent + one;
                   DELETE = one transaction; RENAME = parent INSERTs + one
-                  transaction; RENAME INBOX = INSERT + UPDATE (two statements)
+                  transaction; RENAME INBOX = INSERT, then one transaction (uid_next + re-parent, raven 30e4be8)
       CSubscribe / CUnsubscribe   user_schema.go SubscribeToMailboxPerUser / Unsubscribe...
 
     The mailbox / link tables are the [store] of Model/Store.v (shared with
@@ -101,7 +101,7 @@ Inductive mstep :=
 | MDelLink (id : Z)                             (* DELETE FROM message_mailbox WHERE id = ? *)
 | MTxDelete (mb : Z)                            (* BEGIN; DELETE message_mailbox; DELETE mailboxes; COMMIT *)
 | MTxRename (mb : Z) (old new : str)            (* BEGIN; UPDATE mailboxes SET name *; COMMIT *)
-| MReparent (old new : Z)                       (* UPDATE message_mailbox SET mailbox_id *)
+| MTxReparent (old new nx : Z)                  (* BEGIN; UPDATE mailboxes SET uid_next; UPDATE message_mailbox SET mailbox_id; COMMIT *)
 | MSubscribe (name : str)                       (* INSERT OR IGNORE INTO subscriptions *)
 | MUnsubscribe (name : str).                    (* DELETE FROM subscriptions *)
 
@@ -142,7 +142,7 @@ Definition exec (d : dstore) (st : mstep) : dstore :=
       let s1 := delete_links (d_st d) (in_mbox mb) in
       with_st d (set_mboxes s1 (filter (fun m' => negb (mb_id m' =? mb)) (mboxes s1)))
   | MTxRename mb old new => opt_st d (rename_tx (d_st d) mb old new)
-  | MReparent old new => opt_st d (reparent (d_st d) old new)
+  | MTxReparent old new nx => opt_st d (reparent (set_next (d_st d) new nx) old new)
   | MSubscribe n =>
       if existsb (str_eqb n) (d_subs d) then d
       else mkD (d_file d) (d_schema d) (d_st d) (d_msgs d) (d_subs d ++ [n]) (d_deliv d)
@@ -233,7 +233,7 @@ Definition after_parents (s : store) (ps : list str) (t : Z) : store :=
                                    | Some (s'', _) => s'' | None => s' end
                          end) ps s.
 
-(** EXPUNGE: "SELECT id, uid ... flags LIKE '%\Deleted%' ORDER BY uid", then one DELETE per row id *)
+(** EXPUNGE: "SELECT id, uid ... instr(' '||flags||' ', ' \Deleted ') ORDER BY uid", then one DELETE per row id *)
 Definition expunge_ids (s : store) (sel : Z) : list Z :=
   map lk_id (filter is_deleted (links_sorted s sel)).
 
@@ -245,7 +245,7 @@ Definition base_steps (s : store) (o : op) : list mstep :=
       | [] => []
       | uids => match find_name s dest with
                 | None => []
-                | Some d => [MTxUidCopy sel (mb_id d) uids (max_uid s (mb_id d) + 1)]
+                | Some d => [MTxUidCopy sel (mb_id d) uids (mb_next d)]
                 end
       end
   | OCopy sel set dest =>
@@ -253,7 +253,7 @@ Definition base_steps (s : store) (o : op) : list mstep :=
       | [] => []
       | seqs => match find_name s dest with
                 | None => []
-                | Some d => [MTxCopy sel (mb_id d) seqs (max_uid s (mb_id d) + 1)]
+                | Some d => [MTxCopy sel (mb_id d) seqs (mb_next d)]
                 end
       end
   | OUidStore sel set mode new => map (MStoreOne sel mode new) (resolve_uids s sel set)
@@ -302,7 +302,7 @@ Definition base_steps (s : store) (o : op) : list mstep :=
             | Some ib =>
               match create_mailbox_row s new t with
               | None => []
-              | Some (_, nid) => [MInsMailbox new t; MReparent (mb_id ib) nid]
+              | Some (_, nid) => [MInsMailbox new t; MTxReparent (mb_id ib) nid (mb_next ib)]
               end
             end
           end
@@ -420,7 +420,7 @@ Definition L_INS_LINK := S_ "I message_mailbox".
 (** labels of the INSERTs of the copy loops, up to the first failing one *)
 Fixpoint uidcopy_labels (s : store) (sel dest : Z) (uids : list Z) (next : Z) : list str :=
   match uids with
-  | [] => []
+  | [] => [S_ "U mailboxes"]
   | u :: r =>
     match find_link s sel u with
     | None => uidcopy_labels s sel dest r next
@@ -429,6 +429,21 @@ Fixpoint uidcopy_labels (s : store) (sel dest : Z) (uids : list Z) (next : Z) : 
       match insert_link s (lk_msg l) dest next (add_recent (lk_flags l)) with
       | None => []
       | Some s' => uidcopy_labels s' sel dest r (next + 1)
+      end
+    end
+  end.
+
+Fixpoint copy_labels (s : store) (sel dest : Z) (seqs : list Z) (next : Z) : list str :=
+  match seqs with
+  | [] => [S_ "U mailboxes"]
+  | n :: r =>
+    match nth_error (links_sorted s sel) (Z.to_nat (n - 1)) with
+    | None => []
+    | Some l =>
+      L_INS_LINK ::
+      match insert_link s (lk_msg l) dest next (add_recent (lk_flags l)) with
+      | None => []
+      | Some s' => copy_labels s' sel dest r (next + 1)
       end
     end
   end.
@@ -455,7 +470,7 @@ Definition labels (d : dstore) (st : mstep) : list str :=
   | MTxUidCopy sel dest uids next =>
       L_BEGIN :: uidcopy_labels s sel dest uids next ++ tx_end (is_some (uidcopy_loop s sel dest uids next))
   | MTxCopy sel dest seqs next =>
-      L_BEGIN :: repeat L_INS_LINK (length seqs) ++ tx_end (is_some (copy_loop s sel dest seqs next))
+      L_BEGIN :: copy_labels s sel dest seqs next ++ tx_end (is_some (copy_loop s sel dest seqs next))
   | MStoreOne sel mode new u =>
       match find_link s sel u with
       | None => []
@@ -466,9 +481,9 @@ Definition labels (d : dstore) (st : mstep) : list str :=
           match find_name s destname with
           | None => [S_ "U message_mailbox"]
           | Some dm =>
-            if mb_id dm =? sel then []
-            else match insert_link s (lk_msg l) (mb_id dm) (max_uid s (mb_id dm) + 1) [] with
-                 | Some _ => [L_BEGIN; L_INS_LINK; S_ "D message_mailbox"; L_COMMIT]
+            if mb_id dm =? sel then [S_ "U message_mailbox"]
+            else match insert_link s (lk_msg l) (mb_id dm) (mb_next dm) [] with
+                 | Some _ => [L_BEGIN; L_INS_LINK; S_ "U mailboxes"; S_ "D message_mailbox"; L_COMMIT]
                  | None => [L_BEGIN; L_INS_LINK; L_ROLLBACK; S_ "U message_mailbox"]
                  end
           end in
@@ -485,7 +500,8 @@ Definition labels (d : dstore) (st : mstep) : list str :=
           L_BEGIN :: S_ "U mailboxes" :: repeat (S_ "U mailboxes") (length (children s1 old))
           ++ tx_end (is_some (rename_tx s mb old new))
       end
-  | MReparent _ _ => [S_ "U message_mailbox"]
+  | MTxReparent old new nx =>
+      [L_BEGIN; S_ "U mailboxes"; S_ "U message_mailbox"] ++ tx_end (is_some (reparent (set_next s new nx) old new))
   | MSubscribe _ => [S_ "I subscriptions"]
   | MUnsubscribe _ => [S_ "D subscriptions"]
   end.
